@@ -5,11 +5,21 @@
 (*   ms / ps  removed / added lines as rendered in unified view ([t, e, p])               *)
 (*   rows     side-by-side rendering of the same subhunk: <<i, j>> per row (0 = empty      *)
 (*            panel), used only to see which lines share a row                            *)
-EXTENDS Obs_Emph, TLC, Json, IOUtils
+EXTENDS Obs_Emph, Edits, TLC, Json, IOUtils
 
 Rec == ndJsonDeserialize(IOEnv.TRACE)
-VARIABLES l, failed
-vars == <<l, failed>>
+VARIABLES l, failed, drift
+vars == <<l, failed, drift>>
+
+\* The implementation-shaped model (Edits: tokenize, the alignment table with delta's costs, annotate, the greedy
+\* pairing) run on the same subhunk: does it predict the pairing and every character's emphasis that the binary shows?
+\* (drift report, never a verdict; characters shown in the whitespace-error style say nothing about emphasis)
+MarksDiffer(obs, pred) == \/ Len(obs.e) # Len(pred.e)
+                          \/ \E k \in DOMAIN obs.e : obs.e[k] # 2 /\ obs.e[k] # pred.e[k]
+Drifts(e) ==
+  LET R == InferEdits(e.re, e.thr, 0, [i \in DOMAIN e.ms |-> e.ms[i].t], [j \in DOMAIN e.ps |-> e.ps[j].t]) IN
+  \/ \E i \in DOMAIN e.ms : MarksDiffer(e.ms[i], R.ms[i]) \/ ((\E k \in DOMAIN e.ms[i].e : e.ms[i].e[k] # 2) /\ e.ms[i].p # R.ms[i].p)
+  \/ \E j \in DOMAIN e.ps : MarksDiffer(e.ps[j], R.ps[j]) \/ ((\E k \in DOMAIN e.ps[j].e : e.ps[j].e[k] # 2) /\ e.ps[j].p # R.ps[j].p)
 
 Min(a, b) == IF a < b THEN a ELSE b
 Paired(ls) == SelectSeq(ls, LAMBDA x : x.p)
@@ -48,11 +58,12 @@ Why(e) ==
                \/ (i # 0 /\ j = 0 /\ ms[i].p) \/ (i = 0 /\ j # 0 /\ ps[j].p) THEN "row-sharing"
   ELSE ""
 
-Init == l = 1 /\ failed = <<>>
+Init == l = 1 /\ failed = <<>> /\ drift = <<>>
 Next == /\ l <= Len(Rec)
         /\ l' = l + 1
         /\ LET e == Rec[l] w == Why(e) IN
-             failed' = IF w = "" THEN failed ELSE Append(failed, [run |-> e.run, why |-> w])
+             /\ failed' = IF w = "" THEN failed ELSE Append(failed, [run |-> e.run, why |-> w])
+             /\ drift' = IF Drifts(e) THEN Append(drift, e.run) ELSE drift
 Spec == Init /\ [][Next]_vars
-Done == l <= Len(Rec) \/ PrintT(<<"VERDICT", ToJson(failed)>>)
+Done == l <= Len(Rec) \/ (PrintT(<<"DRIFT", ToJson(drift)>>) /\ PrintT(<<"VERDICT", ToJson(failed)>>))
 =============================================================================
